@@ -650,7 +650,6 @@ func (m *model) apply(p *commitPlan) {
 		}
 		return
 	}
-	ru := proto().RewardUnit
 	for _, d := range p.accts {
 		if d.data.IsEmpty() {
 			delete(m.accts, d.a)
@@ -680,22 +679,31 @@ func (m *model) apply(p *commitPlan) {
 		}
 	}
 	// online history: an entry is recorded when the account's effective state changes (the rule of
-	// onlineAccountsNewRoundImpl, applied to the model's own history)
+	// onlineAccountsNewRoundImpl, applied to the model's own tables). Pebble variant: the prune of this commit
+	// is evaluated before the commit's inserts are visible.
+	if !p.jump {
+		prune(m.hist[1], p.onlFB, true)
+	}
 	for _, d := range p.onl {
 		_, prev, had := m.latestOnline(d.a, ^uint64(0))
-		var ne onlineEntry
-		switch {
-		case d.online && (!had || prev.data != d.data):
-			ne = onlineEntry{d.data, d.data.NormalizedOnlineBalance(ru)}
-		case !d.online && had && !prev.data.IsVotingEmpty():
-			ne = onlineEntry{}
-		default:
-			continue
+		if e, ok := m.applyOnline(prev, had, d); ok {
+			if m.online[d.a] == nil {
+				m.online[d.a] = map[uint64]onlineEntry{}
+			}
+			m.online[d.a][d.upd] = e
 		}
-		if m.online[d.a] == nil {
-			m.online[d.a] = map[uint64]onlineEntry{}
+		for v := 0; v < 2; v++ {
+			_, prev, had := latestIn(m.hist[v], d.a, ^uint64(0))
+			if e, ok := m.applyOnline(prev, had, d); ok {
+				if m.hist[v][d.a] == nil {
+					m.hist[v][d.a] = map[uint64]onlineEntry{}
+				}
+				m.hist[v][d.a][d.upd] = e
+			}
 		}
-		m.online[d.a][d.upd] = ne
+	}
+	if !p.jump {
+		prune(m.hist[0], p.onlFB, false)
 	}
 	if !p.jump {
 		if p.onlFB > m.onlFB {
@@ -741,6 +749,18 @@ func (m *model) apply(p *commitPlan) {
 	}
 	m.round = p.newBase
 	m.commits++
+}
+
+// applyOnline: does this delta create a row, given the newest row the table has for the address?
+func (m *model) applyOnline(prev onlineEntry, had bool, d onlDelta) (onlineEntry, bool) {
+	ru := proto().RewardUnit
+	switch {
+	case d.online && (!had || prev.data != d.data):
+		return onlineEntry{d.data, d.data.NormalizedOnlineBalance(ru)}, true
+	case !d.online && had && !prev.data.IsVotingEmpty():
+		return onlineEntry{}, true
+	}
+	return onlineEntry{}, false
 }
 
 // digest of the model state (distinct-state counter)
